@@ -2,6 +2,7 @@
 // case:   (bu|td) <nsteps> { ; <op> }*      ops:
 //   N k            k := empty automaton            L k <T>       k := fresh automaton loaded from Timbuk text
 //   LI k <T>       load into the existing (empty) automaton k      C k j   k := copy of j
+//   LA k <T>       load further rules / finals into the existing automaton k (adds to what is there; same state names)
 //   F k idx        SetStateFinal(k, idx-th state (sorted, cyclic) occurring in k)        D k    destroy k
 //   U k i j  Union      UD k i j  UnionDisjointStates      X k i j  Intersection
 //   UR k i   RemoveUnreachableStates      UL k i   RemoveUselessStates
@@ -32,6 +33,12 @@ template <class Aut> std::string run(Toks& t) {
 		if (op == "N") { U k = t.num(); pool[k].reset(new Aut()); }
 		else if (op == "L") { U k = t.num(); TA a = readTA(t); pool[k].reset(new Aut(loadBdd<Aut>(a))); }
 		else if (op == "LI") {
+			U k = t.num(); TA a = readTA(t);
+			VATA::Parsing::TimbukParser parser; VATA::AutBase::StateDict m;
+			VATA::AutBase::StringToStateTranslWeak tr(m, [](const std::string& s) { return (VATA::AutBase::StateType)numOf(s); });
+			pool.at(k)->LoadFromString(parser, timbukText(a), tr);
+		}
+		else if (op == "LA") {     // load further rules into the (possibly non-empty, possibly table-sharing) automaton k
 			U k = t.num(); TA a = readTA(t);
 			VATA::Parsing::TimbukParser parser; VATA::AutBase::StateDict m;
 			VATA::AutBase::StringToStateTranslWeak tr(m, [](const std::string& s) { return (VATA::AutBase::StateType)numOf(s); });
